@@ -44,6 +44,7 @@ func replaceKey(doc, key, raw string) string {
 // ---------- schema generation ----------
 
 type gen struct {
+	nbSpec    *Schema      // object code / field key registered for the zoo type zooNB in this case (set on first use)
 	bytesSpec *Schema      // non-nil: []byte has a registered object code in this case (every bytes leaf is coded)
 	barrx  map[int]*Schema // per array length: the registered object code / field key shared by every [N]byte of the case
 	r      *vx.Rng
@@ -75,8 +76,19 @@ func (g *gen) barrxSchema() *Schema {
 	return &Schema{Kind: "barrx", Ptr: g.r.Bool(), N: n, Code: spec.Code, CodeU8: spec.CodeU8, RegKey: spec.RegKey}
 }
 
+// namedBytes: the zoo type []zooB (named byte element type) with a registered object code.
+func (g *gen) namedBytes() *Schema {
+	if g.nbSpec == nil {
+		g.nbSpec = &Schema{Code: g.nCode, CodeU8: g.codeU8, RegKey: vx.Pick(g.r, []string{"", "hx", "nb"})}
+		g.nCode += 1 + int64(g.r.Intn(3))
+	}
+	return &Schema{Kind: "bytes", Coded: true, Named: true, Code: g.nbSpec.Code, CodeU8: g.nbSpec.CodeU8, RegKey: g.nbSpec.RegKey}
+}
+
 func (g *gen) leaf() *Schema {
-	switch g.r.Intn(13) {
+	switch g.r.Intn(14) {
+	case 12:
+		return g.namedBytes()
 	case 11:
 		return g.barrxSchema()
 	case 0:
@@ -254,6 +266,9 @@ func newCase(r *vx.Rng) (*Schema, *serix.API) {
 			}
 		}
 		g.alts = append(g.alts, g.structSchema(1, false, r.Bool(), true))
+	}
+	if r.Chance(1, 6) {
+		g.alts = append(g.alts, g.namedBytes())
 	}
 	if g.bytesSpec != nil && r.Chance(1, 2) {
 		// []byte with its registered object code as an alternative
@@ -692,6 +707,9 @@ func (h *harness) directed() {
 			{Name: "H", TagKey: "hk", S: &Schema{Kind: "bytes", Coded: true, Code: 9, CodeU8: true, RegKey: "hx"}},
 			{Name: "I", Omit: true, S: &Schema{Kind: "bytes", Coded: true, Code: 9, CodeU8: true, RegKey: "hx"}},
 			{Name: "J", Omit: true, S: &Schema{Kind: "slice", Elem: &Schema{Kind: "bytes", Coded: true, Code: 9, CodeU8: true, RegKey: "hx"}}},
+			// c016509: slice of a named byte type with an object code (field with tag key, slice element)
+			{Name: "K", TagKey: "kk", S: &Schema{Kind: "bytes", Coded: true, Named: true, Code: 11, CodeU8: true, RegKey: "nb"}},
+			{Name: "L", Omit: true, S: &Schema{Kind: "slice", Elem: &Schema{Kind: "bytes", Coded: true, Named: true, Code: 11, CodeU8: true, RegKey: "nb"}}},
 		}}
 		tapi := setup(ts)
 		p := reflect.New(ts.T)
@@ -704,6 +722,22 @@ func (h *harness) directed() {
 			`{"a":"0x01","b":"0x01","c":"0x01","d":[],"e":{},"gk":{"type":3,"pubKeyHash":"0x05"},"hk":"0x0102","i":{"hx":"0x01"},"j":[{"type":9}]}`,
 			`{"a":"0x01","b":"0x01","c":"0x01","d":[],"e":{},"gk":{"type":3,"pubKeyHash":"0x05"},"hk":{"type":9,"hx":"0x0102"}}`,
 			`{"a":"0x01","b":"0x01","c":"0x01","d":[],"e":{},"gk":{"type":3,"pubKeyHash":"0x05"},"hk":5,"i":null}`,
+			// 221b25a: wrong / missing / non-number / fractional type code in the object form of by-value arrays and byte slices
+			`{"a":"0x01","b":{"type":99,"bk":"0x01"},"c":"0x01","d":[],"e":{},"gk":{"type":3,"pubKeyHash":"0x05"},"hk":"0x01","kk":[]}`,
+			`{"a":"0x01","b":{"bk":"0x01"},"c":"0x01","d":[],"e":{},"gk":{"type":3,"pubKeyHash":"0x05"},"hk":"0x01","kk":[]}`,
+			`{"a":"0x01","b":{"type":"3","bk":"0x01"},"c":"0x01","d":[],"e":{},"gk":{"type":3,"pubKeyHash":"0x05"},"hk":"0x01","kk":[]}`,
+			`{"a":"0x01","b":{"type":3.7,"bk":"0x01"},"c":"0x01","d":[{"type":4,"pubKeyHash":"0x01"}],"e":{},"gk":{"type":3,"pubKeyHash":"0x05"},"hk":"0x01","kk":[]}`,
+			`{"a":"0x01","b":"0x01","c":"0x01","d":[],"e":{},"gk":{"type":3,"pubKeyHash":"0x05"},"hk":{"type":8,"hk":"0x01"},"kk":[]}`,
+			`{"a":"0x01","b":"0x01","c":"0x01","d":[],"e":{},"gk":{"type":3,"pubKeyHash":"0x05"},"hk":{"hk":"0x01"},"kk":[]}`,
+			`{"a":"0x01","b":"0x01","c":"0x01","d":[],"e":{"x":{"type":77,"pubKeyHash":"0x02"}},"gk":{"type":3,"pubKeyHash":"0x05"},"hk":"0x01","kk":[]}`,
+			// c016509: named byte slice: object form, list of numbers, not a bare string; type code verified
+			`{"a":"0x01","b":"0x01","c":"0x01","d":[],"e":{},"gk":{"type":3,"pubKeyHash":"0x05"},"hk":"0x01","kk":{"type":11,"kk":"0x0102"},"l":[{"type":11,"nb":"0x03"},[4,5]]}`,
+			`{"a":"0x01","b":"0x01","c":"0x01","d":[],"e":{},"gk":{"type":3,"pubKeyHash":"0x05"},"hk":"0x01","kk":[1,300,2.5]}`,
+			`{"a":"0x01","b":"0x01","c":"0x01","d":[],"e":{},"gk":{"type":3,"pubKeyHash":"0x05"},"hk":"0x01","kk":"0x0102"}`,
+			`{"a":"0x01","b":"0x01","c":"0x01","d":[],"e":{},"gk":{"type":3,"pubKeyHash":"0x05"},"hk":"0x01","kk":{"type":12,"kk":"0x0102"}}`,
+			`{"a":"0x01","b":"0x01","c":"0x01","d":[],"e":{},"gk":{"type":3,"pubKeyHash":"0x05"},"hk":"0x01","kk":{"kk":"0x0102"}}`,
+			`{"a":"0x01","b":"0x01","c":"0x01","d":[],"e":{},"gk":{"type":3,"pubKeyHash":"0x05"},"hk":"0x01","kk":[1,"x"]}`,
+			`{"a":"0x01","b":"0x01","c":"0x01","d":[],"e":{},"gk":{"type":3,"pubKeyHash":"0x05"},"hk":"0x01","kk":null}`,
 			`{"a":{"data":"0x01"},"b":"0x01","c":"0x02","d":["0x03"],"e":{"x":"0x04"}}`,
 			`{"a":"0x01","b":{"type":9,"bk":"0x01"},"c":{"pubKeyHash":"0x01"},"d":[],"e":{}}`,
 			`{"a":"0x01","b":{"type":3,"pubKeyHash":"0x01"},"c":"0x","d":[],"e":{}}`,
@@ -715,6 +749,46 @@ func (h *harness) directed() {
 			`{"a":"0x01","b":"0x01","c":"0x01","d":[],"e":{},"f":"0x01"}`,
 		} {
 			h.decCase(ts, tapi, lit(doc), false, "directed-bytearray-forms")
+		}
+	}
+	// Go-side oracles only (shapes outside the model):
+	// b9e1ae8: the field-level maxLen of an interface field still reaches its element (a 4-byte *[4]byte under maxLen=2
+	// is rejected with validation, accepted without); c016509: arrays of a named byte type round-trip
+	{
+		type a4 [4]byte
+		type tI struct {
+			A any `serix:"a,maxLen=2"`
+		}
+		dapi := serix.NewAPI()
+		must(dapi.RegisterTypeSettings(a4{}, serix.TypeSettings{}.WithObjectType(uint8(8))))
+		must(dapi.RegisterInterfaceObjects((*any)(nil), (*a4)(nil)))
+		doc := []byte(`{"a":{"type":8,"data":"0x01020304"}}`)
+		var o1, o2 tI
+		e1 := dapi.JSONDecode(context.Background(), doc, &o1, serix.WithValidation())
+		e2 := dapi.JSONDecode(context.Background(), doc, &o2)
+		h.st.Count(fmt.Sprintf("directed-go:iface-field-maxlen:validated-err=%v,plain-err=%v", e1 != nil, e2 != nil))
+		if e1 == nil || e2 != nil {
+			h.st.Fail(map[string]any{"sig": "json-iface-field-validation", "what": fmt.Sprintf("interface field tagged maxLen=2 holding a 4-byte *[4]byte: with validation err=%v (want an error), without err=%v (want none)", e1, e2)})
+		}
+		type tN struct {
+			B zooNA   `serix:"b"`
+			C *zooNP  `serix:"c"`
+			D []zooNA `serix:"d"`
+		}
+		napi := serix.NewAPI()
+		must(napi.RegisterTypeSettings(zooNA{}, serix.TypeSettings{}.WithObjectType(uint8(5))))
+		must(napi.RegisterTypeSettings(zooNP{}, serix.TypeSettings{}.WithObjectType(uint8(6)).WithFieldKey("pp")))
+		v := &tN{B: zooNA{3, 4, 5}, C: &zooNP{6, 7}, D: []zooNA{{8, 9, 10}}}
+		enc := runEncode(napi, reflect.ValueOf(v), false)
+		var back tN
+		var derr error
+		if enc.class == "ok" {
+			derr = napi.JSONDecode(context.Background(), enc.doc, &back)
+		}
+		okRT := enc.class == "ok" && derr == nil && reflect.DeepEqual(v, &back)
+		h.st.Count(fmt.Sprintf("directed-go:named-byte-arrays-roundtrip=%v", okRT))
+		if !okRT {
+			h.st.Fail(map[string]any{"sig": "json-named-byte-array-roundtrip", "what": fmt.Sprintf("arrays of a named byte type with an object type do not round-trip: encode %s %s %s, decode err %v", enc.class, short(string(enc.doc), 200), short(enc.msg, 120), derr)})
 		}
 	}
 	// fixed d7c084d (Go-side oracle only, no model case): a slice of non-byte elements whose type settings carry an object
@@ -759,6 +833,34 @@ func mutate(r *vx.Rng, doc *jt) (*jt, string) {
 	d.slots(&sl)
 	if len(sl) == 0 || r.Chance(1, 25) {
 		return lit(vx.Pick(r, []string{`null`, `[]`, `3`, `"x"`, `{}`, `true`, `{"zz":1e400}`})), "top"
+	}
+	// the object form of a byte array / byte slice ({"type": code, key: hex}: two entries): wrong, missing, non-number type code
+	if r.Chance(1, 8) {
+		var objs []slot
+		for _, s := range sl {
+			if c := s.get(); c.k == 'o' && len(c.keys) == 2 && c.get("type") != nil {
+				objs = append(objs, s)
+			}
+		}
+		if len(objs) > 0 {
+			cur := vx.Pick(r, objs).get()
+			for i, k := range cur.keys {
+				if k != "type" {
+					continue
+				}
+				if r.Chance(1, 3) {
+					cur.keys = append(cur.keys[:i:i], cur.keys[i+1:]...)
+					cur.vals = append(cur.vals[:i:i], cur.vals[i+1:]...)
+					return d, "byteobj-type-missing"
+				}
+				old := cur.vals[i].num
+				if cur.vals[i].k != '#' {
+					old = "1"
+				}
+				cur.vals[i] = lit(vx.Pick(r, []string{`0`, `99`, old + `.5`, `"` + old + `"`, `null`, `4294967296`, `-1`, `[` + old + `]`}))
+				return d, "byteobj-type-code"
+			}
+		}
 	}
 	op := r.Intn(10)
 	for try := 0; try < 40; try++ {
